@@ -485,6 +485,18 @@ Proof.
     + exfalso. apply (Hnz j Hjg). exact E.
 Qed.
 
+(* what check_groups guarantees of groups_ (same shape as C05's groups_wf) *)
+Definition groups_wf (d : nat) (gs : list (list nat)) : Prop := NoDup (concat gs) /\ in_range d (concat gs).
+Lemma groups_wf_lt d gs g j : groups_wf d gs -> In g gs -> In j g -> (j < d)%nat.
+Proof.
+  intros [_ Hr] Hg Hj. unfold in_range in Hr. rewrite Forall_forall in Hr. apply Hr. apply in_concat. exists g. split; assumption.
+Qed.
+Lemma check_groups_wf groups d r : check_groups groups d = Some r -> groups_wf d r.
+Proof.
+  intros H. destruct (groups_completed_partition groups d r H) as (_ & _ & _ & Hnd & Hp & _).
+  split; [exact Hnd|]. apply Forall_forall. intros i Hi. apply (Permutation_in i Hp) in Hi. apply in_seq in Hi. lia.
+Qed.
+
 Section EndToEnd.
 Context {St : Type}.
 Variable opt_step : St -> @mlp_params R -> @mlp_params R -> St * @mlp_params R.
@@ -492,21 +504,27 @@ Variable opt_lr : St -> R.
 Variable prox : mat -> mat -> R -> R -> mat * mat.
 Variable gprox : list (list nat) -> mat -> mat -> R -> R -> mat * mat.
 Variables d h K : nat.
-(* the two facts about the proximal operators, taken from C05 as hypotheses *)
-Hypothesis prox_feasible : forall Ws W1 thr M, row_feasible d h K M (fst (prox Ws W1 thr M)) (snd (prox Ws W1 thr M)).
-Hypothesis gprox_feasible : forall gs Ws W1 thr M, hier_feasible h K M gs (fst (gprox gs Ws W1 thr M)) (snd (gprox gs Ws W1 thr M)).
-Hypothesis gprox_factor : forall gs Ws W1 thr M, common_factor K gs Ws (fst (gprox gs Ws W1 thr M)).
+(* the facts about the proximal operators, taken from C05 as hypotheses, under C05's guards: non-negative threshold and
+   M, non-zero skip rows handed to the operator, well-formed groups *)
+Hypothesis prox_feasible : forall Ws W1 thr M, 0 <= thr -> 0 <= M -> (forall j, (j < d)%nat -> ~ row_zero K Ws j) ->
+  row_feasible d h K M (fst (prox Ws W1 thr M)) (snd (prox Ws W1 thr M)).
+Hypothesis gprox_facts : forall gs Ws W1 thr M, groups_wf d gs -> 0 <= thr -> 0 <= M ->
+  (forall g, In g gs -> forall j, In j g -> ~ row_zero K Ws j) ->
+  hier_feasible h K M gs (fst (gprox gs Ws W1 thr M)) (snd (gprox gs Ws W1 thr M)) /\
+  common_factor K gs Ws (fst (gprox gs Ws W1 thr M)).
 
 (* no groups: after any _update_weights, every feature outside get_selection() is inert *)
 Lemma update_unselected_inert_mlp : forall alpha M s w g,
+  0 <= alpha * opt_lr (fst (opt_step s w g)) -> 0 <= M ->
+  (forall j, (j < d)%nat -> ~ row_zero K (mWskip (snd (opt_step s w g))) j) ->
   let w' := snd (update_weights_mlp Rops opt_step opt_lr prox gprox None alpha M s w g) in
   forall X X' : mat, (forall j, In j (selection Rops d K (mWskip w')) -> forall i, X i j = X' i j) ->
   forall i k, (k < K)%nat ->
     sparse_mlp_infer Rops d h K (mW1 w') (mb1 w') (mW2 w') (mb2 w') (mWskip w') X i k =
     sparse_mlp_infer Rops d h K (mW1 w') (mb1 w') (mW2 w') (mb2 w') (mWskip w') X' i k.
 Proof.
-  intros alpha M s w g w' X X' Hagree. apply (feasible_whole_unselected_inert d h K M (singletons d)).
-  - apply row_feasible_singletons. subst w'. cbn [snd update_weights_mlp mWskip mW1]. apply prox_feasible.
+  intros alpha M s w g Hthr HM Hnz w' X X' Hagree. apply (feasible_whole_unselected_inert d h K M (singletons d)).
+  - apply row_feasible_singletons. subst w'. cbn [snd update_weights_mlp mWskip mW1]. apply prox_feasible; assumption.
   - apply covered_by_singletons.
   - intros g0 Hg0. apply In_singletons in Hg0. destruct Hg0 as (j & _ & ->).
     destruct (selected Rops K (mWskip w') j) eqn:E.
@@ -515,13 +533,13 @@ Proof.
   - exact Hagree.
 Qed.
 
-(* declared groups (groups_ = Some gs, a cover of [0,d) by check_groups): the same, provided the skip rows the
-   optimiser hands to the proximal step are all non-zero (true of every state reached from a random initialisation
-   except on a null set; a row that is exactly zero at that point may leave its group split, see
-   group_whole_needs_nonzero_rows) *)
+(* declared groups (groups_ = Some gs: well-formed and a cover of [0,d), as check_groups returns): the same, and every
+   group is selected or discarded as a whole, provided the skip rows the optimiser hands to the proximal step are all
+   non-zero (true of every state reached from a random initialisation on data without a constant-zero column; a row
+   that is exactly zero at that point may leave its group split, see group_whole_needs_nonzero_rows) *)
 Lemma update_unselected_inert_mlp_groups : forall gs alpha M s w g,
-  (forall j, (j < d)%nat -> exists g0, In g0 gs /\ In j g0) ->
-  (forall g0, In g0 gs -> forall j, In j g0 -> (j < d)%nat) ->
+  groups_wf d gs -> (forall j, (j < d)%nat -> exists g0, In g0 gs /\ In j g0) ->
+  0 <= alpha * opt_lr (fst (opt_step s w g)) -> 0 <= M ->
   (forall g0, In g0 gs -> forall j, In j g0 -> ~ row_zero K (mWskip (snd (opt_step s w g))) j) ->
   let w' := snd (update_weights_mlp Rops opt_step opt_lr prox gprox (Some gs) alpha M s w g) in
   (forall g0, In g0 gs -> (forall j, In j g0 -> In j (selection Rops d K (mWskip w'))) \/
@@ -531,15 +549,33 @@ Lemma update_unselected_inert_mlp_groups : forall gs alpha M s w g,
     sparse_mlp_infer Rops d h K (mW1 w') (mb1 w') (mW2 w') (mb2 w') (mWskip w') X i k =
     sparse_mlp_infer Rops d h K (mW1 w') (mb1 w') (mW2 w') (mb2 w') (mWskip w') X' i k.
 Proof.
-  intros gs alpha M s w g Hcov Hrange Hnz w'.
+  intros gs alpha M s w g Hwf Hcov Hthr HM Hnz w'.
+  destruct (gprox_facts gs (mWskip (snd (opt_step s w g))) (mW1 (snd (opt_step s w g))) (alpha * opt_lr (fst (opt_step s w g))) M Hwf Hthr HM Hnz)
+    as [HF HC].
   assert (Hwhole : forall g0, In g0 gs -> (forall j, In j g0 -> row_zero K (mWskip w') j) \/ (forall j, In j g0 -> ~ row_zero K (mWskip w') j)).
   { intros g0 Hg0. subst w'. cbn [snd update_weights_mlp mWskip].
-    apply (proj2 (group_whole K gs _ _ (gprox_factor gs _ _ _ M) g0 Hg0)). apply Hnz, Hg0. }
+    apply (proj2 (group_whole K gs _ _ HC g0 Hg0)). apply Hnz, Hg0. }
   split.
   - intros g0 Hg0. destruct (Hwhole g0 Hg0) as [Hz|Hn].
     + right. intros j Hj Hin. apply In_selection in Hin. apply (proj2 Hin), Hz, Hj.
-    + left. intros j Hj. apply In_selection. split; [apply (Hrange g0 Hg0), Hj | apply Hn, Hj].
+    + left. intros j Hj. apply In_selection. split; [apply (groups_wf_lt d gs g0 j Hwf Hg0 Hj) | apply Hn, Hj].
   - intros X X' Hagree. apply (feasible_whole_unselected_inert d h K M gs); try assumption.
-    subst w'. cbn [snd update_weights_mlp mWskip mW1]. apply gprox_feasible.
 Qed.
 End EndToEnd.
+
+(* the linear model with declared groups: after _update_weights every group is selected or discarded as a whole *)
+Lemma update_groups_whole_linear : forall (St : Type) (opt_step : St -> @lin_params R -> @lin_params R -> St * @lin_params R)
+    (opt_lr : St -> R) (prox : mat -> R -> mat) (gprox : list (list nat) -> mat -> R -> mat) (d K : nat),
+  (forall gs W thr, groups_wf d gs -> common_factor K gs W (gprox gs W thr)) ->
+  forall gs alpha s w g, groups_wf d gs ->
+  (forall g0, In g0 gs -> forall j, In j g0 -> ~ row_zero K (lW (snd (opt_step s w g))) j) ->
+  let w' := snd (update_weights_linear Rops opt_step opt_lr prox gprox (Some gs) alpha s w g) in
+  forall g0, In g0 gs -> (forall j, In j g0 -> In j (selection Rops d K (lW w'))) \/
+                         (forall j, In j g0 -> ~ In j (selection Rops d K (lW w'))).
+Proof.
+  intros St opt_step opt_lr prox gprox d K HC gs alpha s w g Hwf Hnz w' g0 Hg0.
+  subst w'. cbn [snd update_weights_linear lW].
+  destruct (proj2 (group_whole K gs _ _ (HC gs (lW (snd (opt_step s w g))) (prox_threshold Rops alpha (opt_lr (fst (opt_step s w g)))) Hwf) g0 Hg0) (Hnz g0 Hg0)) as [Hz|Hn].
+  - right. intros j Hj Hin. apply In_selection in Hin. apply (proj2 Hin), Hz, Hj.
+  - left. intros j Hj. apply In_selection. split; [apply (groups_wf_lt d gs g0 j Hwf Hg0 Hj) | apply Hn, Hj].
+Qed.
